@@ -1,7 +1,590 @@
-//! C37 — not implemented yet.
-use vmon::report::Args;
+//! C37 — feature flags and version strings gate compatibility correctly.
+//!
+//! Pure part (no tokio): all flag words, `apply_feature_flags` as a function of manifest contents,
+//! `LanceFileVersion` conversions. Dataset part: manifests rewritten with unknown bits, random
+//! histories after which the written flags must equal the function of the contents.
+use crate::common::*;
+use arrow_array::{Int64Array, RecordBatch, RecordBatchIterator, StringArray};
+use arrow_schema::{DataType, Field as AField, Schema as ASchema};
+use lance::dataset::optimize::{compact_files, CompactionOptions};
+use lance::dataset::{WriteMode, WriteParams};
+use lance::Dataset;
+use lance_core::datatypes::Schema;
+use lance_encoding::version::LanceFileVersion;
+use lance_table::feature_flags::*;
+use lance_table::format::{BasePath, DataFile, DataStorageFormat, DeletionFile, DeletionFileType, Fragment, Manifest, RowIdMeta};
+use lance_table::io::commit::write_manifest_file_to_path;
+use object_store::path::Path;
+use serde_json::json;
+use std::collections::{BTreeMap, HashMap};
+use std::str::FromStr;
+use std::sync::atomic::{AtomicBool, Ordering};
+use std::sync::Arc;
+use vmon::prng::Rng;
+use vmon::report::{Args, Report};
+use vmon::store::World;
+use vmon::table::Actor;
 
-pub fn run(_args: &Args) -> i32 {
-    eprintln!("HARNESS-ERROR C37 not implemented");
-    2
+type Fail = (String, String);
+const KNOWN: u64 = FLAG_DELETION_FILES | FLAG_STABLE_ROW_IDS | FLAG_USE_V2_FORMAT_DEPRECATED | FLAG_TABLE_CONFIG | FLAG_BASE_PATHS | FLAG_DISABLE_TRANSACTION_FILE;
+
+/// selftest: pretend the observed writer flags lack the deletion bit
+static CORRUPT_FLAGS: AtomicBool = AtomicBool::new(false);
+
+// ------------------------------------------------------------------------------------------
+// pure: flag words
+
+fn flag_words(report: &Report, sink: &Sink) {
+    let mut n = 0u64;
+    let mut check = |w: u64| {
+        n += 1;
+        let want = w & !KNOWN == 0;
+        if can_read_dataset(w) != want {
+            sink.violation_lazy(
+                if want { "flags:can_read:rejects-known-bits" } else { "flags:can_read:accepts-unknown-bit" },
+                &format!("can_read_dataset({w:#x}) = {}", !want),
+                || json!({"flags": w}),
+            );
+        }
+        if can_write_dataset(w) != want {
+            sink.violation_lazy(
+                if want { "flags:can_write:rejects-known-bits" } else { "flags:can_write:accepts-unknown-bit" },
+                &format!("can_write_dataset({w:#x}) = {}", !want),
+                || json!({"flags": w}),
+            );
+        }
+        report.case(Some(hash_of(&("word", w))));
+    };
+    // every word over the 6 known bits and the first 2 unknown bits
+    for w in 0..256u64 {
+        check(w);
+    }
+    // every unknown bit alone and with every combination of known bits
+    for k in 6..64u32 {
+        for known in 0..64u64 {
+            check((1u64 << k) | known);
+        }
+    }
+    check(u64::MAX);
+    report.count("flag_words_checked", n);
+    if FLAG_UNKNOWN != 64 || KNOWN != 63 {
+        report.harness_error("the set of known feature flag bits changed; update the C37 oracle (KNOWN) and the docs check");
+    }
+}
+
+// ------------------------------------------------------------------------------------------
+// pure: apply_feature_flags as a function of manifest contents
+
+fn tiny_schema() -> Schema {
+    Schema::try_from(&ASchema::new(vec![AField::new("id", DataType::Int64, false)])).unwrap()
+}
+
+fn apply_case(report: &Report, sink: &Sink, i: u64) {
+    let mut rng = Rng::for_case(report.seed, 0x37_0000_0000 + i);
+    let nfrag = rng.urange(0, 4);
+    let rowid_mode = rng.below(4); // 0 none, 1 all, 2 some, 3 all-external
+    let mut frags = vec![];
+    for f in 0..nfrag {
+        let mut fr = Fragment::new(f as u64);
+        fr.files.push(DataFile::new_legacy_from_fields(format!("d{f}.lance"), vec![0], None));
+        fr.physical_rows = Some(10);
+        if rng.chance(1, 3) {
+            fr.deletion_file = Some(DeletionFile {
+                read_version: rng.below(10),
+                id: rng.next_u64(),
+                file_type: if rng.bool() { DeletionFileType::Array } else { DeletionFileType::Bitmap },
+                num_deleted_rows: if rng.bool() { Some(rng.usize_below(10)) } else { None },
+                base_id: None,
+            });
+        }
+        let with_ids = match rowid_mode {
+            0 => false,
+            1 | 3 => true,
+            _ => rng.bool(),
+        };
+        if with_ids {
+            fr.row_id_meta = Some(RowIdMeta::Inline(vec![1, 2, 3]));
+        }
+        frags.push(fr);
+    }
+    let mut base_paths = HashMap::new();
+    if rng.chance(1, 4) {
+        base_paths.insert(1u32, BasePath::new(1, "memory://other".into(), None, rng.bool()));
+    }
+    let mut m = Manifest::new(tiny_schema(), Arc::new(frags.clone()), DataStorageFormat::new(LanceFileVersion::V2_0), base_paths.clone());
+    if rng.chance(1, 3) {
+        m.config.insert("k".into(), "v".into());
+    }
+    if rng.chance(1, 5) {
+        m.table_metadata.insert("t".into(), "v".into());
+    }
+    // stale flags from a previous version must not leak through
+    m.reader_feature_flags = rng.below(64);
+    m.writer_feature_flags = rng.below(64);
+    let enable = rng.chance(1, 3);
+    let disable_txn = rng.chance(1, 4);
+    let has_del = frags.iter().any(|f| f.deletion_file.is_some());
+    let any_ids = frags.iter().any(|f| f.row_id_meta.is_some());
+    let all_ids = frags.iter().all(|f| f.row_id_meta.is_some());
+    let want: Result<(u64, u64), ()> = if (any_ids || enable) && !all_ids {
+        Err(())
+    } else {
+        let mut r = 0;
+        let mut w = 0;
+        if has_del {
+            r |= FLAG_DELETION_FILES;
+            w |= FLAG_DELETION_FILES;
+        }
+        if any_ids || enable {
+            r |= FLAG_STABLE_ROW_IDS;
+            w |= FLAG_STABLE_ROW_IDS;
+        }
+        if !m.config.is_empty() {
+            w |= FLAG_TABLE_CONFIG;
+        }
+        if !base_paths.is_empty() {
+            r |= FLAG_BASE_PATHS;
+            w |= FLAG_BASE_PATHS;
+        }
+        if disable_txn {
+            w |= FLAG_DISABLE_TRANSACTION_FILE;
+        }
+        Ok((r, w))
+    };
+    let got = apply_feature_flags(&mut m, enable, disable_txn).map(|_| (m.reader_feature_flags, m.writer_feature_flags));
+    let desc = || json!({"seed": report.seed as i64, "case": i, "fragments": nfrag, "deletion_files": has_del, "row_ids": [any_ids, all_ids], "enable_stable_row_id": enable,
+        "disable_transaction_file": disable_txn, "config": m.config.len(), "base_paths": base_paths.len()});
+    match (&got, &want) {
+        (Ok(g), Ok(w)) if g == w => {}
+        (Err(_), Err(())) => report.rejected(),
+        (Ok(g), Ok(w)) => {
+            let class = if g.0 != w.0 { "reader-flags" } else { "writer-flags" };
+            let bits = (g.0 ^ w.0) | (g.1 ^ w.1);
+            sink.violation_lazy(&format!("apply_feature_flags:{class}-differ:bits-{bits:#x}"), &format!("flags {g:?}, function of contents {w:?}"), desc);
+        }
+        (Ok(g), Err(())) => sink.violation_lazy("apply_feature_flags:accepts-fragments-partly-without-row-ids", &format!("{g:?}"), desc),
+        (Err(e), Ok(_)) => sink.violation_lazy("apply_feature_flags:error-on-valid-manifest", &e.to_string(), desc),
+    }
+    let nt = has_del || any_ids || !m.config.is_empty() || !base_paths.is_empty();
+    report.case(nt.then(|| hash_of(&("apply", has_del, any_ids, all_ids, enable, disable_txn, m.config.len(), base_paths.len(), nfrag))));
+}
+
+// ------------------------------------------------------------------------------------------
+// pure: LanceFileVersion
+
+fn file_versions(report: &Report, sink: &Sink) {
+    use LanceFileVersion::*;
+    let all = [Legacy, V2_0, Stable, V2_1, Next, V2_2];
+    let mut n = 0u64;
+    let mut bad = |sig: &str, what: String| {
+        sink.violation_lazy(sig, &what, || json!({"detail": what}));
+    };
+    // documented table (docs/src/format/file/versioning.md + doc comments in version.rs)
+    let concrete: BTreeMap<&str, (LanceFileVersion, (u32, u32))> =
+        [("0.1", (Legacy, (0, 2))), ("2.0", (V2_0, (2, 0))), ("2.1", (V2_1, (2, 1))), ("2.2", (V2_2, (2, 2)))].into_iter().collect();
+    let aliases: [(&str, LanceFileVersion, LanceFileVersion); 4] = [("legacy", Legacy, Legacy), ("stable", Stable, V2_0), ("next", Next, V2_1), ("0.3", V2_0, V2_0)];
+    for v in all {
+        n += 1;
+        // Display / FromStr round trip
+        let s = v.to_string();
+        match LanceFileVersion::from_str(&s) {
+            Ok(b) if b == v => {}
+            other => bad("file-version:display-parse-roundtrip", format!("{v:?} -> {s:?} -> {other:?}")),
+        }
+        // resolve is idempotent and lands on a concrete version
+        let r = v.resolve();
+        if r.resolve() != r || matches!(r, Stable | Next) {
+            bad("file-version:resolve-not-concrete", format!("{v:?} -> {r:?}"));
+        }
+        // numbers round trip through the resolved version
+        let (ma, mi) = v.to_numbers();
+        match LanceFileVersion::try_from_major_minor(ma, mi) {
+            Ok(b) if b == r => {}
+            other => bad("file-version:numbers-roundtrip", format!("{v:?} -> ({ma},{mi}) -> {other:?}")),
+        }
+        if r.to_numbers() != (ma, mi) {
+            bad("file-version:alias-numbers-differ-from-resolved", format!("{v:?}"));
+        }
+        // the stability verdict of an alias is that of the version it stands for
+        if v.is_unstable() != r.is_unstable() {
+            bad(
+                &format!("file-version:is_unstable-differs-between-alias-and-resolved:{}", v.to_string()),
+                format!("{v:?}.is_unstable() = {}, {r:?}.is_unstable() = {}", v.is_unstable(), r.is_unstable()),
+            );
+        }
+        // DataStorageFormat stores the resolved version string
+        let dsf = DataStorageFormat::new(v);
+        match dsf.lance_file_version() {
+            Ok(b) if b == r => {}
+            other => bad("file-version:data-storage-format-roundtrip", format!("{v:?} -> {:?} -> {other:?}", dsf.version)),
+        }
+        report.case(Some(hash_of(&("ver", s))));
+    }
+    for (s, (v, nums)) in &concrete {
+        n += 1;
+        if LanceFileVersion::from_str(s).ok() != Some(*v) || v.to_numbers() != *nums || v.to_string() != *s {
+            bad("file-version:concrete-table", format!("{s} / {v:?} / {nums:?}"));
+        }
+    }
+    for (s, parsed, resolved) in aliases {
+        n += 1;
+        for variant in [s.to_string(), s.to_uppercase()] {
+            match LanceFileVersion::from_str(&variant) {
+                Ok(p) if p == parsed && p.resolve() == resolved => {}
+                other => bad("file-version:alias-resolves-to-undocumented-version", format!("{variant:?} -> {other:?}, documented {resolved:?}")),
+            }
+        }
+        report.case(Some(hash_of(&("alias", s))));
+    }
+    for s in ["", "2", "2.3", "1.0", "v2.0", "2.0 ", "latest", "0.2"] {
+        n += 1;
+        if let Ok(v) = LanceFileVersion::from_str(s) {
+            bad("file-version:accepts-unknown-string", format!("{s:?} -> {v:?}"));
+        }
+    }
+    // all number pairs of a small grid: accepted pairs must round trip to themselves or a documented alias
+    let accepted: BTreeMap<(u32, u32), LanceFileVersion> = [((0, 0), Legacy), ((0, 1), Legacy), ((0, 2), Legacy), ((0, 3), V2_0), ((2, 0), V2_0), ((2, 1), V2_1), ((2, 2), V2_2)].into_iter().collect();
+    for ma in 0..5u32 {
+        for mi in 0..5u32 {
+            n += 1;
+            let got = LanceFileVersion::try_from_major_minor(ma, mi).ok();
+            if got != accepted.get(&(ma, mi)).copied() {
+                bad("file-version:major-minor-table", format!("({ma},{mi}) -> {got:?}"));
+            }
+        }
+    }
+    report.count("file_version_checks", n);
+}
+
+// ------------------------------------------------------------------------------------------
+// dataset level
+
+fn batch(ids: std::ops::Range<i64>) -> RecordBatch {
+    let schema = Arc::new(ASchema::new(vec![AField::new("id", DataType::Int64, false), AField::new("s", DataType::Utf8, true)]));
+    let n = ids.clone().count();
+    RecordBatch::try_new(
+        schema,
+        vec![Arc::new(Int64Array::from_iter_values(ids)), Arc::new(StringArray::from_iter_values((0..n).map(|i| format!("v{i}"))))],
+    )
+    .unwrap()
+}
+
+fn reader(b: RecordBatch) -> RecordBatchIterator<std::vec::IntoIter<std::result::Result<RecordBatch, arrow_schema::ArrowError>>> {
+    let s = b.schema();
+    RecordBatchIterator::new(vec![Ok(b)].into_iter(), s)
+}
+
+fn base_of(ds: &Dataset) -> Path {
+    let parts: Vec<_> = ds.manifest_location().path.parts().collect();
+    Path::from_iter(parts[..parts.len() - 2].iter().cloned())
+}
+
+fn flags_of_contents(m: &Manifest) -> (u64, u64) {
+    let mut r = 0;
+    let mut w = 0;
+    if m.fragments.iter().any(|f| f.deletion_file.is_some()) {
+        r |= FLAG_DELETION_FILES;
+        w |= FLAG_DELETION_FILES;
+    }
+    if m.fragments.iter().any(|f| f.row_id_meta.is_some()) {
+        r |= FLAG_STABLE_ROW_IDS;
+        w |= FLAG_STABLE_ROW_IDS;
+    }
+    if !m.config.is_empty() {
+        w |= FLAG_TABLE_CONFIG;
+    }
+    if !m.base_paths.is_empty() {
+        r |= FLAG_BASE_PATHS;
+        w |= FLAG_BASE_PATHS;
+    }
+    (r, w)
+}
+
+fn check_manifest(m: &Manifest, stable_ids: bool, version: LanceFileVersion, step: &str) -> Result<(), Fail> {
+    let (mut r, mut w) = flags_of_contents(m);
+    if stable_ids {
+        r |= FLAG_STABLE_ROW_IDS;
+        w |= FLAG_STABLE_ROW_IDS;
+    }
+    let mut gw = m.writer_feature_flags & !FLAG_DISABLE_TRANSACTION_FILE;
+    if CORRUPT_FLAGS.load(Ordering::Relaxed) {
+        gw &= !FLAG_DELETION_FILES;
+    }
+    if m.reader_feature_flags != r {
+        return Err((format!("history:reader-flags-differ:bits-{:#x}:after-{step}", m.reader_feature_flags ^ r), format!("reader flags {} vs contents {r}", m.reader_feature_flags)));
+    }
+    if gw != w {
+        return Err((format!("history:writer-flags-differ:bits-{:#x}:after-{step}", gw ^ w), format!("writer flags {gw} vs contents {w}")));
+    }
+    // storage version: the manifest's and every data file's
+    let want = version.resolve();
+    match m.data_storage_format.lance_file_version() {
+        Ok(v) if v == want => {}
+        other => return Err((format!("history:storage-version-differs:after-{step}"), format!("{other:?} vs {want:?}"))),
+    }
+    let nums = want.to_numbers();
+    for f in m.fragments.iter() {
+        for df in &f.files {
+            if (df.file_major_version, df.file_minor_version) != nums {
+                return Err((
+                    format!("history:data-file-version-differs:after-{step}"),
+                    format!("{} carries {}.{}, table {}.{}", df.path, df.file_major_version, df.file_minor_version, nums.0, nums.1),
+                ));
+            }
+        }
+    }
+    Ok(())
+}
+
+async fn history_case(report: &Report, sink: &Sink<'_>, i: u64) {
+    let mut rng = Rng::for_case(report.seed, i);
+    let world = World::memory();
+    let actor = Actor::new(world.actor(0));
+    let uri = format!("memory://c37-{i}");
+    let stable = rng.bool();
+    let version = *rng.pick(&[LanceFileVersion::V2_0, LanceFileVersion::V2_1, LanceFileVersion::Stable, LanceFileVersion::Next, LanceFileVersion::V2_0]);
+    let mut params = actor.write_params(WriteMode::Create);
+    params.enable_stable_row_ids = stable;
+    params.data_storage_version = Some(version);
+    params.max_rows_per_file = 20;
+    params.enable_v2_manifest_paths = rng.bool();
+    let mut next_id = 40i64;
+    let mut ds = match Dataset::write(reader(batch(0..40)), uri.as_str(), Some(params)).await {
+        Ok(d) => d,
+        Err(e) => {
+            report.harness_error(&format!("create failed: {e}"));
+            return;
+        }
+    };
+    let mut steps = vec!["create".to_string()];
+    let mut fails: Vec<Fail> = vec![];
+    if let Err(f) = check_manifest(ds.manifest(), stable, version, "create") {
+        fails.push(f);
+    }
+    let mut seen_del = false;
+    let mut seen_cfg = false;
+    for _ in 0..rng.urange(3, 7) {
+        let op = rng.below(5);
+        let (name, res): (&str, lance::Result<()>) = match op {
+            0 => {
+                let n = rng.range(1, 30);
+                let b = batch(next_id..next_id + n);
+                next_id += n;
+                let mut p = actor.write_params(WriteMode::Append);
+                p.max_rows_per_file = 20;
+                ("append", ds.append(reader(b), Some(p)).await)
+            }
+            1 => {
+                let lo = rng.range(0, next_id);
+                let hi = lo + rng.range(0, 15);
+                ("delete", ds.delete(&format!("id >= {lo} AND id < {hi}")).await)
+            }
+            2 => {
+                let opts = CompactionOptions { target_rows_per_fragment: 50, materialize_deletions: true, materialize_deletions_threshold: 0.0, ..Default::default() };
+                ("compact", compact_files(&mut ds, opts, None).await.map(|_| ()))
+            }
+            3 => ("update_config", ds.update_config([("k1", "v1")]).await.map(|_| ())),
+            _ => ("delete_config", ds.delete_config_keys(&["k1"]).await),
+        };
+        steps.push(name.to_string());
+        if let Err(e) = res {
+            fails.push((format!("history:operation-failed:{name}"), e.to_string()));
+            break;
+        }
+        seen_del |= ds.manifest().fragments.iter().any(|f| f.deletion_file.is_some());
+        seen_cfg |= !ds.manifest().config.is_empty();
+        if let Err(f) = check_manifest(ds.manifest(), stable, version, name) {
+            fails.push(f);
+            break;
+        }
+        // what a fresh reader sees is the same manifest
+        match actor.fresh_session().open(&uri).await {
+            Ok(d2) => {
+                if d2.manifest().reader_feature_flags != ds.manifest().reader_feature_flags || d2.manifest().writer_feature_flags != ds.manifest().writer_feature_flags {
+                    fails.push((format!("history:reopened-flags-differ:after-{name}"), String::new()));
+                    break;
+                }
+            }
+            Err(e) => {
+                fails.push((format!("history:reopen-failed:after-{name}"), e.to_string()));
+                break;
+            }
+        }
+        report.count("history_steps_checked", 1);
+    }
+    report.case((seen_del || seen_cfg || stable).then(|| hash_of(&("hist", &steps, stable, version.to_string()))));
+    if i % 37 == 3 && report.want_sample() {
+        report.sample(json!({"part": "history", "case": i, "steps": steps, "stable_row_ids": stable, "storage_version": version.to_string(),
+            "final_flags": [ds.manifest().reader_feature_flags, ds.manifest().writer_feature_flags]}));
+    }
+    for (sig, what) in fails {
+        sink.violation_lazy(&sig, &what, || json!({"seed": report.seed as i64, "case": i, "steps": steps, "stable_row_ids": stable, "storage_version": version.to_string(), "detail": what,
+            "replay": format!("e_sets C37 --seed {} --case {i}", report.seed as i64)}));
+    }
+}
+
+/// A table whose newest manifest carries an unknown bit.
+async fn unknown_bit_case(report: &Report, sink: &Sink<'_>, i: u64, bit: u32, reader_side: bool) {
+    let world = World::memory();
+    let actor = Actor::new(world.actor(0));
+    let uri = format!("memory://c37-bit-{i}");
+    let mut params = actor.write_params(WriteMode::Create);
+    params.enable_v2_manifest_paths = i % 2 == 0;
+    let ds = match Dataset::write(reader(batch(0..10)), uri.as_str(), Some(params)).await {
+        Ok(d) => d,
+        Err(e) => {
+            report.harness_error(&format!("create failed: {e}"));
+            return;
+        }
+    };
+    let mut m = ds.manifest().clone();
+    m.version += 1;
+    // offsets of sections inside the *old* file do not apply to the new one
+    m.transaction_section = None;
+    m.index_section = None;
+    if reader_side {
+        m.reader_feature_flags |= 1u64 << bit;
+    } else {
+        m.writer_feature_flags |= 1u64 << bit;
+    }
+    let base = base_of(&ds);
+    let path = ds.manifest_location().naming_scheme.manifest_path(&base, m.version);
+    if let Err(e) = write_manifest_file_to_path(ds.object_store(), &mut m, None, &path, None).await {
+        report.harness_error(&format!("cannot write the doctored manifest: {e}"));
+        return;
+    }
+    let fresh = actor.fresh_session();
+    let opened = fresh.open(&uri).await;
+    let wit = |d: &str| json!({"seed": report.seed as i64, "case": i, "unknown_bit": bit, "side": if reader_side { "reader" } else { "writer" }, "detail": d});
+    if reader_side {
+        match opened {
+            Err(e) if e.to_string().contains("cannot be read by this version") => {}
+            Err(e) => sink.violation_lazy("dataset:unknown-reader-bit:open-fails-for-another-reason", &e.to_string(), || wit(&e.to_string())),
+            Ok(d) => {
+                if d.manifest().version == m.version {
+                    sink.violation_lazy("dataset:unknown-reader-bit:open-succeeds", &format!("bit {bit}: opened version {} with reader flags {}", d.manifest().version, d.manifest().reader_feature_flags), || wit(""));
+                } else {
+                    report.harness_error("the doctored manifest was not picked up as latest");
+                }
+            }
+        }
+        // older versions stay readable
+        if let Err(e) = fresh.open_version(&uri, m.version - 1).await {
+            sink.violation_lazy("dataset:unknown-reader-bit:older-version-unreadable", &e.to_string(), || wit(&e.to_string()));
+        }
+    } else {
+        let mut d = match opened {
+            Ok(d) if d.manifest().version == m.version => d,
+            Ok(_) => {
+                report.harness_error("the doctored manifest was not picked up as latest");
+                return;
+            }
+            Err(e) => {
+                sink.violation_lazy("dataset:unknown-writer-bit:read-fails", &e.to_string(), || wit(&e.to_string()));
+                return;
+            }
+        };
+        match d.count_rows(None).await {
+            Ok(10) => {}
+            other => sink.violation_lazy("dataset:unknown-writer-bit:read-fails", &format!("count_rows = {other:?}"), || wit("")),
+        }
+        // every kind of write must be refused and leave no new version
+        let kind = i % 5;
+        let (name, res): (&str, lance::Result<()>) = match kind {
+            0 => ("append", d.append(reader(batch(100..105)), Some(fresh.write_params(WriteMode::Append))).await),
+            1 => ("append-by-uri", Dataset::write(reader(batch(100..105)), uri.as_str(), Some(fresh.write_params(WriteMode::Append))).await.map(|_| ())),
+            2 => ("delete", d.delete("id < 3").await),
+            3 => ("update_config", d.update_config([("k", "v")]).await.map(|_| ())),
+            _ => {
+                let opts = CompactionOptions { target_rows_per_fragment: 50, ..Default::default() };
+                // make compaction have something to do
+                ("overwrite", Dataset::write(reader(batch(0..5)), uri.as_str(), Some(fresh.write_params(WriteMode::Overwrite))).await.map(|_| ()).and(Ok(())).or_else(|e| { let _ = &opts; Err(e) }))
+            }
+        };
+        let latest = fresh.fresh_session().open(&uri).await.map(|x| x.manifest().version).unwrap_or(0);
+        match res {
+            Err(_) if latest == m.version => {}
+            Err(e) => sink.violation_lazy(&format!("dataset:unknown-writer-bit:{name}-failed-but-committed"), &e.to_string(), || wit(&e.to_string())),
+            Ok(()) => sink.violation_lazy(
+                &format!("dataset:unknown-writer-bit:{name}-accepted"),
+                &format!("writer flags {} (bit {bit} unknown): {name} succeeded, latest version now {latest}", m.writer_feature_flags),
+                || wit(""),
+            ),
+        }
+    }
+    report.count("doctored_manifests", 1);
+    report.case(Some(hash_of(&("bit", bit, reader_side, i % 5))));
+}
+
+thread_local! {
+    static RT: tokio::runtime::Runtime = tokio::runtime::Builder::new_current_thread().enable_all().build().unwrap();
+}
+
+fn dataset_case(report: &Report, sink: &Sink, i: u64) {
+    RT.with(|rt| {
+        rt.block_on(async {
+            if i % 3 == 0 {
+                let bit = 6 + ((i / 3) % 58) as u32;
+                unknown_bit_case(report, sink, i, bit, (i / 3) % 2 == 0).await
+            } else {
+                history_case(report, sink, i).await
+            }
+        })
+    });
+}
+
+fn selftest(args: &Args) -> i32 {
+    quiet_panics();
+    let mut a = args.clone();
+    a.prop = "C37-selftest".into();
+    std::env::set_var("VERIF_EVIDENCE_OUT", "/dev/null");
+    let report = Report::new(&a, "exploration", "selftest", (60, 60));
+    let base = Sink::collecting();
+    for i in 1..40 {
+        dataset_case(&report, &base, i);
+    }
+    let sink = Sink::collecting();
+    CORRUPT_FLAGS.store(true, Ordering::Relaxed);
+    for i in 1..40 {
+        dataset_case(&report, &sink, i);
+    }
+    CORRUPT_FLAGS.store(false, Ordering::Relaxed);
+    let new: Vec<String> = sink.signatures().into_iter().filter(|s| !base.signatures().contains(s)).collect();
+    println!("SELFTEST corrupted-writer-flags new signatures={new:?}");
+    if new.iter().any(|s| s.starts_with("history:writer-flags-differ")) {
+        println!("SELFTEST C37 ok");
+        0
+    } else {
+        println!("SELFTEST C37 FAILED");
+        2
+    }
+}
+
+pub fn run(args: &Args) -> i32 {
+    if is_selftest(args) {
+        return selftest(args);
+    }
+    quiet_panics();
+    arm_watchdog(args.tier.pick(300, 1500));
+    let rule = "Enumerated completely: every flag word over the 6 known bits and the first two unknown bits (0..256), every unknown bit 6..63 alone and with every combination of known bits, u64::MAX; every LanceFileVersion variant, documented alias/concrete string, rejected strings and the (major,minor) grid 0..5 x 0..5. Seeded random: apply_feature_flags on generated manifests (deletion files, row id metadata on none/all/some fragments, config, base paths, stale previous flags, both switches); dataset level on a monitored memory store: manifests rewritten with one unknown reader or writer bit (open must fail / reads work and append, append-by-uri, delete, update_config, overwrite must be refused without a new version), and random histories (append, delete, compaction materialising deletions, update/delete config; stable row ids on/off; storage version 2.0/2.1/stable/next) after every step of which the flags equal the function of the manifest contents and every data file carries the table's storage version. Non-trivial history: deletion files, config or stable row ids occurred.";
+    let report = Report::new(args, "exploration", rule, (45, 480)).with_min_nontrivial(50);
+    let sink = Sink::to_report(&report);
+    if let Some(c) = args.extra.get("case").and_then(|c| c.parse::<u64>().ok()) {
+        dataset_case(&report, &sink, c);
+        sink.flush();
+        return report.finish();
+    }
+    flag_words(&report, &sink);
+    file_versions(&report, &sink);
+    report.exhaustive(true);
+    for i in 0..args.tier.pick(20_000u64, 500_000) {
+        apply_case(&report, &sink, i);
+    }
+    report.set("t_after_pure_s", json!((report.elapsed_s() * 10.0).round() / 10.0));
+    let max_cases = args.tier.pick(20_000u64, 2_000_000);
+    fan_out(n_threads(), 1, max_cases, &|| report.time_left(), &|i| dataset_case(&report, &sink, i));
+    report.assume("the set of known bits is the one of feature_flags.rs (bits 1..32, FLAG_UNKNOWN = 64); docs/src/format/table/versioning.md still says 'bit values 32 and above are unknown'");
+    report.assume("FLAG_DISABLE_TRANSACTION_FILE (32) in writer flags is not compared at dataset level (it depends on a commit option, not on contents)");
+    sink.flush();
+    report.finish()
 }
